@@ -209,6 +209,25 @@ class Builder:
                           f"mon.write({a} * {b})", f"mon.write(float({a}))", f"mon.write(int({b}))"])
         return "mixed_arith"
 
+    def s_device_getter(self, target):
+        """values read back from device state keep their type when stored in a variable."""
+        if not getattr(self, "_mot", False):
+            self._mot = True
+            self.pre.insert(0, "from Reduino.Actuators import DCMotor, Servo")
+            self.body[:0] = ["mot = DCMotor(2, 4, 3)", "srv = Servo(6)"]
+        x = self.name()
+        sp = self.draw(st.sampled_from(["0.5", "-0.25", "1.0", "0.75"]))
+        which = self.draw(st.sampled_from(["get_speed", "get_applied_speed", "get_mode", "servo_read", "servo_read_us"]))
+        if which in ("get_speed", "get_applied_speed"):
+            self.out(target, [f"mot.set_speed({sp})", f"{x} = mot.{which}()", f"mon.write({x})", f"mon.write({x} * 2)"])
+        elif which == "get_mode":
+            self.out(target, [f"mot.set_speed({sp})", f"{x} = mot.get_mode()", f"mon.write({x})", f"mon.write({x} + '!')"])
+        elif which == "servo_read":
+            self.out(target, [f"srv.write({self.draw(st.sampled_from(['45', '90.5', '12.25']))})", f"{x} = srv.read()", f"mon.write({x})"])
+        else:
+            self.out(target, [f"srv.write_us({self.draw(st.sampled_from(['1500', '1000.5']))})", f"{x} = srv.read_us()", f"mon.write({x})"])
+        return "device_getter"
+
     # ---- classes of open findings (off by default)
     def s_retype(self, target):
         x = self.name()
@@ -253,7 +272,7 @@ class Builder:
 
 
 SAFE = ["if_else_join", "ifexp_join", "float_first", "branch_hoist", "elif_hoist", "for_hoist", "while_hoist", "return_join", "annotated_param",
-        "list_join", "string_promotion", "tuple", "cross_pass", "mixed_arith"]
+        "list_join", "string_promotion", "tuple", "cross_pass", "mixed_arith", "device_getter"]
 OPEN = ["retype", "multi_signature", "unannotated_param", "branch_in_loop", "float_minmaxabs", "main_loop_first_assign"]
 
 
